@@ -48,6 +48,26 @@ def one(rep, rule, what, cands):
     return None
 
 
+_mf_cache = {}
+
+
+def mapping_field(fx):
+    """name of ProguardMapping's byte-slice field (role: the only field of the struct; private, so it may be renamed)"""
+    k = id(fx)
+    if k not in _mf_cache:
+        a = fx.adt("proguard::mapping::ProguardMapping")
+        fl = [f_["name"] for f_ in a["variants"][0]["fields"]] if a else []
+        _mf_cache[k] = fl[0] if len(fl) == 1 else "source"
+    return _mf_cache[k]
+
+
+def record_iter_field(fx):
+    """name of ProguardRecordIter's cursor field (role: its only field)"""
+    a = fx.adt("proguard::mapping::ProguardRecordIter")
+    fl = [f_["name"] for f_ in a["variants"][0]["fields"]] if a else []
+    return fl[0] if len(fl) == 1 else "slice"
+
+
 CACHE = "cache::raw::ProguardCache"
 MAPPER = "mapper::ProguardMapper"
 
